@@ -8,6 +8,7 @@ import (
 	"sort"
 	"strings"
 	"sync"
+	"sync/atomic"
 	"time"
 
 	tally "github.com/uber-go/tally/v4"
@@ -692,9 +693,51 @@ func scenarioCloseStress(c *Ctx, r *Rng) {
 	c.Cov.Schedules++
 }
 
+// Close called at once after the root was created, on one P: the report loop goroutine may not have been scheduled
+// yet.  "After Close has returned ... the reporting goroutine has ended": the loop's exit hook (it fires inside the
+// goroutine, before its completion is signalled) has fired by the time Close returns, for every interval.
+func scenarioCloseAtOnce(c *Ctx, cached bool, interval time.Duration) {
+	old := runtime.GOMAXPROCS(1)
+	defer runtime.GOMAXPROCS(old)
+	s := NewSched(nil)
+	var starts, exits int32
+	s.Observe = func(l, _ string) {
+		switch l {
+		case "loop.start":
+			atomic.AddInt32(&starts, 1)
+		case "loop.exit":
+			atomic.AddInt32(&exits, 1)
+		}
+	}
+	s.ParkOnT = func(string, string) bool { return false }
+	w := newWorld(cached, interval, 1, true)
+	w.inc(w.root.Counter("c"), "c", 3)
+	w.inc(w.root.SubScope("s").Counter("c"), "s.c", 4)
+	err := w.closer.Close()
+	ex := atomic.LoadInt32(&exits)
+	s.Finish()
+	line := fmt.Sprintf("GOMAXPROCS(1); cached=%v; root with interval %v created, two counters incremented, Close called at once", cached, interval)
+	w.trace = []string{line}
+	if err != nil {
+		c.Cov.Fail(Failure{Kind: "violated", Clause: "close-returns-reporter-error", Signature: "c08-close-at-once", Line: line, Reply: err.Error()})
+	}
+	if ex != 1 {
+		c.Cov.Fail(Failure{Kind: "violated", Clause: "report-goroutine-ended", Signature: "c08-close-at-once-loop-not-ended", Line: line,
+			Reply: fmt.Sprintf("when Close returned the report loop goroutine had not ended (loop exits observed: %d, loop starts: %d): Close did not wait for it", ex, atomic.LoadInt32(&starts))})
+	}
+	w.checkConservation(c, "C08", "c08-close-at-once")
+	c.Cov.Eval(line, true)
+	c.Cov.Schedules++
+}
+
 func suiteC08Conc(c *Ctx) {
 	c.Cov.Rule = "scripted schedule (Close called while a periodic pass of the real report loop goroutine is part-way through the registry; Close parked between close(done) and its final pass) and free-running stress (4 recording goroutines, ticker 20-200us, 1-8 shards, plain and cached closable reporters) ; oracle: conservation of everything recorded before Close, last calls are Flush then exactly one reporter Close, nothing afterwards, second Close nil and silent, SubScope after Close inert, no report-loop goroutine left; every case nontrivial; distinct by trace"
 	for _, cached := range []bool{false, true} {
+		for _, iv := range []time.Duration{time.Hour, 50 * time.Millisecond, 100 * time.Microsecond} {
+			for k := 0; k < 5; k++ {
+				scenarioCloseAtOnce(c, cached, iv)
+			}
+		}
 		scenarioCloseDuringPass(c, cached)
 		scenarioReacquireDuringClose(c, cached, true)
 		scenarioReacquireDuringClose(c, cached, false)
